@@ -26,6 +26,10 @@ RULE = ('Streams: secret (16 bytes: random, all-zero, all-FF), outbound '
         'Non-trivial: stream > 16 bytes split off a block boundary with '
         'both directions interleaved; distinct by (secret, streams, '
         'partitions).')
+RULE += (' ' +
+         'Round 11: logins after the application seeded the global PRNG '
+         'identically each time, and under a frozen wall clock: secrets '
+         'still differ. ')
 LEVEL_TEXT = ('Differential testing of the cipher wrappers and the RSA '
               'envelope against independent implementations over generated '
               'secrets, streams, call partitions and interleavings.')
